@@ -110,5 +110,44 @@ def run(ck):
     ck.who_calls("G4.who", facts, "Mgr::Action::run", {CM + "start": "after the gate", "Mgr::Filler::start": "SMP strand executing a coordinator request (checked by the originating worker)"}, min_callers=2)
     ck.who_calls("G4.who", facts, "Mgr::ActionCreator::create", {CM + "start": "after the gate", CM + "createNamedAction": "aggregation of kid responses",
                                                                   CM + "createRequestedAction": "IPC request from the worker that ran the gate"}, min_callers=3)
+    ck.rule("G5 the built-in `manager` ACL covers everything that is routed to the cache manager: requests are recognised as cache-manager requests by host, port and the "
+            "/squid-internal-mgr/ path prefix, whatever their scheme, so the DEFAULT `manager` url_regex of src/cf.data.pre (the source of the generated default "
+            "configuration) must match <scheme>://host/squid-internal-mgr/<action> for every URL scheme Squid knows (AnyP::ProtocolType), case-insensitively; otherwise "
+            "`http_access deny manager` leaves e.g. ftp://proxy:3128/squid-internal-mgr/menu reachable")
+    import os
+    import re as _re
+    from .. import units as _units
+    cfp = os.path.join(_units.REPO, "src", "cf.data.pre")
+    ck.need(os.path.exists(cfp), "C61: src/cf.data.pre vanished")
+    cfp = _units.OVERLAY.get(cfp, cfp)
+    mline = [ln.strip() for ln in open(cfp, errors="replace") if _re.match(r"^DEFAULT:\s+manager\s+url_regex\b", ln)]
+    ck.need(len(mline) == 1, "C61: expected exactly one `DEFAULT: manager url_regex` line in src/cf.data.pre, found %d" % len(mline))
+    toks = mline[0].split()[3:]
+    icase = False
+    pats = []
+    for t in toks:
+        if t in ("-i", "+i"):
+            icase = (t == "-i")
+            continue
+        pats.append((t, icase))
+    # squid: `-i` makes the following patterns case-insensitive, `+i` case-sensitive again
+    protos = facts.enum_with("PROTO_HTTPS")
+    schemes = sorted(n[len("PROTO_"):].lower().replace("_", "-") for n in protos if n.startswith("PROTO_") and n not in ("PROTO_NONE", "PROTO_UNKNOWN", "PROTO_MAX", "PROTO_URN", "PROTO_AUTHORITY_FORM", "PROTO_TLS", "PROTO_SSL", "PROTO_ICP", "PROTO_HTCP", "PROTO_ICY"))
+    ck.need(len(schemes) >= 4 and "http" in schemes and "ftp" in schemes, "C61: AnyP::ProtocolType scheme list not found: %s" % schemes)
+    try:
+        rx = [_re.compile(p_, _re.IGNORECASE if ic else 0) for p_, ic in pats]
+    except _re.error as e_:
+        raise ck.broken("C61: cannot interpret the manager regex %s: %s" % (pats, e_))
+    uncovered = []
+    for sc in schemes:
+        url = "%s://proxy.example:3128/squid-internal-mgr/menu" % sc     # Squid lower-cases the scheme before ACLs see the URL
+        if not any(r.search(url) for r in rx):
+            uncovered.append(url)
+    if not uncovered:
+        ck.ok("G5.manager-acl-covers-all-schemes", "src/cf.data.pre", "DEFAULT manager url_regex %s matches the cache-manager URL of all %d schemes" % ([p_ for p_, _ in pats], len(schemes)))
+    else:
+        ck.violation("G5.manager-acl-covers-all-schemes", "G5|manager-acl|uncovered:%s" % ",".join(sorted({u.split(":")[0] for u in uncovered})), "src/cf.data.pre",
+                     "the built-in `manager` ACL %s does not match %s although such a request is served by the cache manager: `http_access deny manager` does not protect it"
+                     % ([p_ for p_, _ in pats], uncovered[:3]))
     ck.assume("extraction of the password from the URL / Authorization header (ParseUrl, ParseHeaders), String comparison, and the http_access part "
               "(C45) are not analysed; exception edges of the try block are not in the CFG")
